@@ -107,6 +107,8 @@ type book struct {
 	unspent []int
 	fork    int
 	accts   map[int]bool
+	bal3    map[int]uint64 // credited minus debited, per rhp3 account (generator's estimate)
+	bal4    map[int]uint64
 	nextC   int
 	nextU   int
 	nextVol int
@@ -114,7 +116,7 @@ type book struct {
 }
 
 func newBook() *book {
-	return &book{cs: map[int]*cinfo{}, stored: map[int]bool{}, temp: map[int]bool{}, accts: map[int]bool{}}
+	return &book{cs: map[int]*cinfo{}, stored: map[int]bool{}, temp: map[int]bool{}, accts: map[int]bool{}, bal3: map[int]uint64{}, bal4: map[int]uint64{}}
 }
 
 func (b *book) liveIDs() []types.FileContractID {
@@ -558,6 +560,7 @@ func buildOp(p vhlib.ParsedLine, b *book) (*opDef, error) {
 		}
 		o.onOK = func(b *book) {
 			b.accts[a] = true
+			b.bal3[a] += amt
 			if ci, ok := b.cs[c]; ok {
 				ci.rev = rev
 			}
@@ -565,6 +568,7 @@ func buildOp(p vhlib.ParsedLine, b *book) (*opDef, error) {
 	case "DebitAccount":
 		a := p.Int("a")
 		o.run = func(sd *side) error { return sd.st.DebitAccount(acct3(a), u.acct()) }
+		o.onOK = func(b *book) { b.bal3[a] -= u[0] + u[1] + u[2] + u[3] + u[4] + u[5] }
 	case "A.BudgetCommit":
 		a, max := p.Int("a"), p.U64("max")
 		o.run = func(sd *side) error {
@@ -578,6 +582,7 @@ func buildOp(p vhlib.ParsedLine, b *book) (*opDef, error) {
 			}
 			return bud.Commit()
 		}
+		o.onOK = func(b *book) { b.bal3[a] -= u[0] + u[1] + u[2] + u[3] + u[4] + u[5] }
 	case "RHP4CreditAccounts":
 		rev, ws, we, locked := p.U64("rev"), p.U64("ws"), p.U64("we"), p.U64("locked")
 		var deps []proto4.AccountDeposit
@@ -600,6 +605,12 @@ func buildOp(p vhlib.ParsedLine, b *book) (*opDef, error) {
 			return err
 		}
 		o.onOK = func(b *book) {
+			for _, d := range p.List("deps") {
+				q := strings.SplitN(d, ":", 2)
+				a, _ := strconv.Atoi(q[0])
+				amt, _ := strconv.ParseUint(q[1], 10, 64)
+				b.bal4[a] += amt
+			}
 			if ci, ok := b.cs[c]; ok {
 				ci.rev = rev
 			}
@@ -607,6 +618,7 @@ func buildOp(p vhlib.ParsedLine, b *book) (*opDef, error) {
 	case "RHP4DebitAccount":
 		a := p.Int("a")
 		o.run = func(sd *side) error { return sd.st.RHP4DebitAccount(acct4(a), u.v2()) }
+		o.onOK = func(b *book) { b.bal4[a] -= u[0] + u[1] + u[2] + u[3] }
 	// ------------------------------------------------------------ registry, settings, webhooks, metrics, peers
 	case "SetRegistryValue":
 		k, rev, data, exp := p.Int("k"), p.U64("rev"), p.U64("data"), p.U64("exp")
